@@ -1234,6 +1234,119 @@ def c18_affected_host_lowercase(ctx):
     return q.result()
 
 
+def c16_decode_txt_step(ctx):
+    q = Q("c16_decode_txt_step", ["service_info::decode_txt (one loop iteration from an arbitrary loop-head state)", "decode_txt::{closure#2} (key/value split)"],
+          "the inductive step: ANY record length (usize < 2^62), ANY offset <= length at the loop head, ANY bytes; one iteration to the back edge or the exit - covers records of every size",
+          ["slice element reads return arbitrary bytes", "loop-head invariant offset <= len (checked to be preserved)", "Iterator::position returns an index inside the slice (its contract)"])
+    f = ctx.funcs[ctx.fn("service_info::decode_txt")] if "service_info::decode_txt" in ctx.funcs else ctx.funcs[ctx.fn("::decode_txt")]
+    off_local = f.debug.get("offset")
+    # loop head = target of the back edge: the block that compares offset with PtrMetadata(txt)
+    head = None
+    for b, (st, t) in f.blocks.items():
+        if any("PtrMetadata" in x for x in st) and t.startswith("switchInt") and any(re.match(r"_\d+ = Lt\(", x) for x in st):
+            head = b
+            break
+    if not head or not off_local:
+        q.unknown.append("loop head / offset local of decode_txt not found")
+        return q.result()
+    off = z3.BitVec("offset", 64)
+    txt = ("txt", 0)
+    ex = Explorer(ctx.funcs, ctx.consts, max_visits=1, max_paths=500)
+    paths = ex.explore(f.name, args=[Ref(txt, (), mutable=False)], start_block=head, locals_={off_local: BV(off, 64)}, objs={txt: {}})
+    if ex.unknown_constructs:
+        q.notes.append("unmodelled: " + "; ".join(sorted(set(ex.unknown_constructs))[:4]))
+    n_back, n_exit = 0, 0
+    for i, p in enumerate(paths):
+        ln = p.acc.get(("len", txt, ()))
+        if ln is None:
+            q.unknown.append(f"path {i}: the record length is never consulted")
+            continue
+        inv = [z3.ULE(off, ln.e), z3.ULT(ln.e, TWO62)]
+        if p.outcome.startswith("panic"):
+            q.unsat(inv + p.cond, f"decode_txt panics ({p.outcome[6:46]})")
+            continue
+        for e in p.events:
+            if e[0] == "call" and "Index<" in e[1] and e[1].endswith("::index"):
+                rng = e[2][1]
+                if isinstance(rng, Adt) and "Range" in rng.name and len(rng.items) == 2:
+                    a, b = rng.items
+                    q.valid(inv + p.cond, z3.And(z3.ULE(a.e, b.e), z3.ULE(b.e, ln.e)), f"path {i}: the slice taken for one string lies inside the record", a.taint or b.taint)
+                else:
+                    q.unknown.append(f"path {i}: slice range not resolved")
+        if p.outcome.startswith("cut:loop"):
+            n_back += 1
+            # state at the back edge: the frame's offset local was updated on this path: it is the last value written
+            new_off = getattr(p, "final_locals", {}).get(off_local)
+            if new_off is None:
+                q.unknown.append(f"path {i}: offset at the back edge not available")
+                continue
+            q.valid(inv + p.cond, z3.UGT(new_off.e, off), f"path {i}: every iteration consumes at least one byte (termination)", new_off.taint)
+            q.valid(inv + p.cond, z3.ULE(new_off.e, ln.e), f"path {i}: the offset never passes the end of the record (invariant preserved)", new_off.taint)
+            q.witness(inv + p.cond, f"path {i}: iteration")
+        elif p.outcome == "return":
+            n_exit += 1
+    if n_back == 0 or n_exit == 0:
+        q.unknown.append(f"expected iterating and exiting paths (found {n_back}/{n_exit})")
+    # key/value split closure: idx inside the slice => both sub-slices inside
+    c2 = [n for n in ctx.funcs if n.endswith("service_info::decode_txt::{closure#2}")]
+    if len(c2) == 1:
+        idx = z3.BitVec("idx", 64)
+        kv = ("kv", 0)
+        env = Tup([Ref(("cell", 0), (), mutable=False)])
+        ex2 = Explorer(ctx.funcs, ctx.consts, max_paths=50)
+        for i, p in enumerate(ex2.explore(c2[0], args=[env, BV(idx, 64)], objs={("cell", 0): {(): Ref(kv, (), mutable=False)}, kv: {}})):
+            # the slice length: modelled through the range checks only; idx < len is position()'s contract
+            if p.outcome.startswith("panic"):
+                q.unsat(p.cond + [z3.ULT(idx, TWO62)], "key/value split overflows")
+            for e in p.events:
+                if e[0] == "call" and e[1].endswith("::index") and isinstance(e[2][1], Adt):
+                    r = e[2][1]
+                    if "RangeTo" in r.name:
+                        q.valid(p.cond, r.items[0].e == idx, "key = bytes before the first '='", r.items[0].taint)
+                    elif "RangeFrom" in r.name:
+                        q.valid(p.cond + [z3.ULT(idx, TWO62)], r.items[0].e == idx + 1, "value = bytes after the first '=' (the '=' itself dropped)", r.items[0].taint)
+    else:
+        q.unknown.append("key/value split closure not found")
+    return q.result()
+
+
+def c16_first_key_wins(ctx):
+    q = Q("c16_first_key_wins", ["service_info::decode_txt_unique", "decode_txt_unique::{closure#0}"],
+          "call structure of decode_txt_unique and its retain closure", ["calls are opaque; provenance only"])
+    names = [n for n in ctx.funcs if n.endswith("decode_txt_unique")]
+    clos = [n for n in ctx.funcs if "decode_txt_unique::{closure#0}" in n]
+    if len(names) != 1:
+        q.unknown.append("decode_txt_unique not found")
+        return q.result()
+    ex = Explorer(ctx.funcs, ctx.consts, max_paths=100)
+    rets = [p for p in ex.explore(names[0]) if p.outcome == "return"]
+    if not rets:
+        q.unknown.append("no returning path")
+    for i, p in enumerate(rets):
+        calls = [e[1] for e in p.events if e[0] == "call"]
+        if not any(c.endswith("decode_txt") for c in calls):
+            q.fail.append(("decode_txt_unique does not decode", f"path {i}"))
+        if not any("retain" in c.split("::")[-1] for c in calls):
+            q.fail.append(("duplicate keys are not filtered over the WHOLE list (only the first occurrence of a key may be kept, wherever the repeats are)", f"path {i}: calls {[c.split('::')[-1] for c in calls]}"))
+    if len(clos) != 1:
+        q.fail.append(("no per-property filter closure", "decode_txt_unique::{closure#0} missing"))
+        return q.result()
+    ex2 = Explorer(ctx.funcs, ctx.consts, max_paths=50)
+    for i, p in enumerate(pp for pp in ex2.explore(clos[0]) if pp.outcome == "return"):
+        ins = [e for e in p.events if e[0] == "call" and e[1].split("::")[-1] == "insert" and "HashSet" in e[1]]
+        if not ins:
+            q.fail.append(("the filter does not consult the set of keys seen so far", f"closure path {i}"))
+            continue
+        prod = _producer(p, ins[0][2][1])
+        if not (prod and prod[1].endswith("to_lowercase")):
+            q.fail.append(("keys are not compared case-insensitively when dropping duplicates", f"closure path {i}: key produced by {prod[1] if prod else None}"))
+        rv = [e for e in p.events if e[0] == "ret" and e[1].split("::")[-1] == "insert"]
+        if rv and isinstance(p.ret, BoolV) and isinstance(rv[0][2], BoolV):
+            q.valid(p.cond, p.ret.e == rv[0][2].e, f"closure path {i}: a property is kept iff its key is new")
+            q.nontrivial += 1
+    return q.result()
+
+
 def z3_vars(e):
     out, seen, stack = [], set(), [e]
     while stack:
@@ -1433,7 +1546,8 @@ SPECS = {
     "C12": [c12_poll_timeout, c12_ipcheck_rearm, c12_hostname_timeout_timer, c12_conflict_probe_timer, c12_tiebreak_retry_timer, c11_cache_flush_rule, c05_verify_deadline],
     "C19": [c19_browse_backoff, c19_hostname_backoff, c19_resolve_retry, c19_initial_delay, c19_rerun_due, c19_browse_listener_gone],
     "C08": [c08_tiebreak_count_operands],
+    "C16": [c16_decode_txt_step, c16_first_key_wins],
     "C01": [c01_name_cap_operand],
-    "C15": [c01_name_cap_operand],
+    "C15": [c01_name_cap_operand, c16_decode_txt_step],
     "C20": [c20_not_for_us_paths, c20_txt_evicted_without_srv, c05_evict_predicate],
 }
